@@ -195,7 +195,7 @@ impl<'a> LongChain<'a> {
             remaining -= this_len;
             truncate_index += 1;
         }
-        self.total_remaining_len = len;
+        self.total_remaining_len = self.total_remaining_len.min(len);
     }
 }
 
